@@ -574,6 +574,7 @@ fn install_site_hook() {
         let loc = info.location().map(|l| format!("{}:{}:{}", l.file(), l.line(), l.column())).unwrap_or_else(|| "?".into());
         let p = info.payload();
         let msg = if let Some(s) = p.downcast_ref::<&str>() { s.to_string() } else if let Some(s) = p.downcast_ref::<String>() { s.clone() } else { "panic".into() };
+        if std::env::var("C23_DEBUG").is_ok() { eprintln!("panic at {} : {}\n{}", loc, msg, std::backtrace::Backtrace::force_capture()); }
         let mut g = PANIC_AT.lock().unwrap_or_else(|e| e.into_inner());
         if g.is_none() { *g = Some(format!("{} | {}", loc, msg.replace('\n', " "))); }
     }));
@@ -584,9 +585,9 @@ fn take_site() -> String { PANIC_AT.lock().unwrap_or_else(|e| e.into_inner()).ta
 fn file_code(loc: &str) -> u32 {
     let f = loc.split(':').next().unwrap_or("");
     let f = f.trim_start_matches("/repo/");
-    const FILES: [&str; 13] = ["src/btree/leaf.rs", "src/btree/interior.rs", "src/btree/simd_scan.rs", "src/storage/mmap.rs", "src/storage/file_manager.rs",
+    const FILES: [&str; 14] = ["src/btree/leaf.rs", "src/btree/interior.rs", "src/btree/simd_scan.rs", "src/storage/mmap.rs", "src/storage/file_manager.rs",
         "src/storage/wal.rs", "src/storage/freelist.rs", "src/storage/toast.rs", "src/records/view.rs", "src/records/jsonb.rs", "src/records/array.rs",
-        "src/schema/persistence.rs", "src/types/owned_value.rs"];
+        "src/schema/persistence.rs", "src/types/owned_value.rs", "src/sql/decoder.rs"];
     if let Some(i) = FILES.iter().position(|x| *x == f) { return i as u32 + 1; }
     if f.starts_with("src/btree") { return 20; }
     if f.starts_with("src/storage") { return 21; }
@@ -827,6 +828,7 @@ fn run_script(dir: &Path, wal: bool) -> (u32, u32) {
     if wal { tally(db.execute("PRAGMA wal=ON").is_ok()); }
     for op in SCRIPT {
         let (code, sql) = op.split_at(2);
+        if std::env::var("C23_DEBUG").is_ok() { eprintln!("op: {}", op); }
         let r = if code.starts_with('Q') { db.query(sql).map(|_| ()) } else { db.execute(sql).map(|_| ()) };
         if let Err(e) = &r { if std::env::var("C23_DEBUG").is_ok() { eprintln!("script op failed: {} : {:#}", op, e); } }
         tally(r.is_ok());
@@ -1052,12 +1054,13 @@ fn db_class(feat: &[u64], o: &XOut) -> u32 {
     match o {
         XOut::Panic(_) if page_file && site == 3 && cls == 4 => 8,
         XOut::Panic(_) if page_file && site == 1 && (cls == 3 || cls == 4) => 9,
+        XOut::Panic(_) if page_file && site == 0 && cls == 4 => 9,
         XOut::Panic(_) if page_file && site == 2 && cls == 4 => 10,
-        XOut::Panic(_) if page_file && (site == 9 || site == 22) && cls == 4 => 14,
+        XOut::Panic(_) if page_file && matches!(site, 9 | 14 | 22) && cls == 4 => 14,
         XOut::Timeout if page_file => 12,
         XOut::Panic(_) if fk == 2 && off < 80 && site == 0 && cls == 7 => 11,
         XOut::Abort if fk == 2 && off < 80 => 11,
-        XOut::Panic(_) if fk == 2 && off >= 128 && (site == 9 || site == 22) && cls == 4 => 15,
+        XOut::Panic(_) if fk == 2 && off >= 128 && matches!(site, 9 | 10 | 11 | 22) && cls == 4 => 15,
         _ => 0,
     }
 }
